@@ -136,8 +136,8 @@ func c10pausegate(cs *h.Case, script string) string {
 			return "harness-error"
 		}
 	}
-	paused := false   // what the harness itself did last: Pause or Unpause
-	underPause := 0   // loops that came back from Receive since the last Pause
+	paused := false // what the harness itself did last: Pause or Unpause
+	underPause := 0 // loops that came back from Receive since the last Pause
 	released := map[string]chan struct{}{}
 	var out []string
 	// a loop that has its message either hands it to the dispatcher or ends up at the gate
